@@ -22,6 +22,8 @@ Cases == {[fn |-> f, cls |-> c, n |-> N(TRUE)] : f \in {"SetBytes", "SetBytesUnc
          \* complete limb patterns: x around p (81), canonical y around (p-1)/2 (27)
          \cup {[fn |-> f, cls |-> "plimbs", n |-> 81] : f \in {"SetBytes", "SetBytesUncompressed", "ReadPoint"}}
          \cup {[fn |-> f, cls |-> "ypat", n |-> 27] : f \in {"SetBytes", "SetBytesUncompressed", "ReadPoint"}}
+         \* y with a chosen 2-power component (one or two bits of the dyadic discrete log set)
+         \cup {[fn |-> f, cls |-> "ydyad", n |-> 64] : f \in {"SetBytes", "SetBytesUncompressed", "ReadPoint"}}
 
 VARIABLE done
 Init == done = FALSE
